@@ -260,6 +260,11 @@ def base_streams():
         lvl1, _ = vb.assemble([dict(code=vb.PC_SH, payload=vb.sequence_header_payload(f1), first_in_sequence=True), dict(code=vb.PC_HQ_PIC, payload=vb.picture_payload(f1, "HQ", 0)), dict(code=vb.PC_EOS, payload=b"", npo="zero")])
         out.append(("tiny_level0_then_level1", tiny["tiny_HQ_v2_pic_frames"] + lvl1))
         out.append(("tiny_level1_then_level0", lvl1 + tiny["tiny_LD_v1_pic_frames"]))
+        # a transform for which Annex D defines no default quantisation matrix, and no custom matrix in the stream
+        fq = vb.Fmt(profile="HQ", version=3, wavelet=0)
+        fq.wavelet_ho = 1
+        nq, _ = vb.assemble([dict(code=vb.PC_SH, payload=vb.sequence_header_payload(fq), first_in_sequence=True), dict(code=vb.PC_HQ_PIC, payload=vb.picture_payload(fq, "HQ", 0)), dict(code=vb.PC_EOS, payload=b"", npo="zero")])
+        out.append(("tiny_no_default_quant_matrix", nq))
         out += padded_slice_streams()
         out += custom_header_streams()
         out += huge_value_streams()
@@ -271,7 +276,7 @@ def base_streams():
 def conformant_by_construction(name):
     """base streams that are conformant because of how they were made (encoder output, hand-assembled per the
     standard, test-case generator output, concatenations of those) -- everything except the streams made to be wrong"""
-    return not (name.startswith("huge_") or name.startswith("tiny_header_zero_"))
+    return not (name.startswith("huge_") or name.startswith("tiny_header_zero_") or name == "tiny_no_default_quant_matrix")
 
 
 def pi_offsets(data):
